@@ -321,11 +321,53 @@ def check_structure(style, sections, parent, options=None):
     return compare(style, sections, parsed, parent), text
 
 
+def omitted_value_annotations():
+    """Returns / Yields / Receives items written WITHOUT a type take it from the documented object: the whole returned / yielded / received type when one item
+    is documented, its elements in order when several are (Google and Numpy; plain function returning a tuple, generator with tuple components)."""
+    out, n = [], 0
+    mod = Module("m")
+    plain = Function("f")
+    gen = Function("g")
+    for fn in (plain, gen):
+        mod.set_member(fn.name, fn)
+    plain.returns = parse_docstring_annotation("tuple[int, str]", Docstring("", parent=mod))
+    gen.returns = parse_docstring_annotation("Generator[tuple[int, str], tuple[float, bytes], tuple[bool, complex]]", Docstring("", parent=mod))
+    whole = {"yields": "tuple[int, str]", "receives": "tuple[float, bytes]", "returns": "tuple[bool, complex]"}
+    for style in ("google", "numpy"):
+        for kind, parent in (("returns", plain), ("yields", gen), ("receives", gen)):
+            for count in (1, 2):
+                items = [{"name": f"v{i}", "annotation": None, "description": ["Text."]} for i in range(count)]
+                text = {"google": render_google, "numpy": render_numpy}[style]([{"kind": "text", "value": "Summary."}, {"kind": kind, "items": items}])
+                n += 1
+                try:
+                    parsed = Docstring(text, parent=parent).parse(Parser(style))
+                except Exception as e:  # noqa: BLE001
+                    out.append((style, text, f"parser raised {type(e).__name__}: {e}"))
+                    continue
+                sec = [s_ for s_ in parsed if s_.kind.value == kind]
+                if len(sec) != 1 or len(sec[0].value) != count:
+                    out.append((style, text, f"{kind}: {count} untyped items written, recovered {[len(x.value) for x in sec]}"))
+                    continue
+                full = "tuple[int, str]" if parent is plain else whole[kind]
+                want = [full] if count == 1 else [e.strip() for e in full[len("tuple["):-1].split(",")]
+                got = [ann_text(v.annotation) for v in sec[0].value]
+                if got != want:
+                    out.append((style, text, f"{kind}: {count} untyped item(s) under `{parent.returns}`: annotations recovered as {got}, the signature gives {want}"))
+    return n, out
+
+
 def bounded(seed, n_random, budget_s):
     logging.disable(logging.CRITICAL)
     t0 = time.time()
     parent = parent_function()
     bad, sigs, cases = [], set(), 0
+    n_om, om = omitted_value_annotations()
+    cases += n_om
+    for style, text, dd in om:
+        sig = f"{style}:omitted-annotation:" + dd.split(":")[0]
+        if sig not in sigs:
+            sigs.add(sig)
+            bad.append({"style": style, "docstring": text, "failure": dd, "signature": sig})
     for style in ("google", "numpy", "sphinx"):
         ts = time.time()
         for secs in gen_structures(style, seed, n_random):
